@@ -176,6 +176,10 @@ func (e *Engine) staticModHeaps(c *Contract, fn interface {
 				return u.Elem()
 			case *types.Map:
 				return u.Elem()
+			case *GhostT:
+				if u.Kind == "gmap" {
+					return u.Elem
+				}
 			}
 		}
 		return nil
@@ -217,6 +221,8 @@ func (e *Engine) staticModHeaps(c *Contract, fn interface {
 	}
 	bt := typeOf(sel.X)
 	if bt == nil {
+		// never drop a modifies entry silently: callers would keep facts about state the callee changes
+		limitf("contract %s: modifies entry %q cannot be resolved to a heap map", c.Key, entry)
 		return nil
 	}
 	if h, _, _, ok := e.absFieldOf(bt, sel.Name); ok {
